@@ -245,7 +245,7 @@ def run(rep, tier, seed, keep=False):
                  lambda: ('toSet', ()), lambda: ('memorize', ()), lambda: ('flatten', ()), lambda: ('groupBy', (g.bn('mod', X, g.c(2)),)), lambda: ('concat', (g.lst(g.c(5)),))]
         final = [lambda: ('toList', ()), lambda: ('len', ()), lambda: ('first', (g.c(-1),)), lambda: ('sum', (g.c(0),)), lambda: ('any', ()), lambda: ('last', (g.c(-1),)),
                  lambda: ('indexOf', (g.c(1),)), lambda: ('aggregate', (BINS[0], g.c(0)))]
-        for _ in range(600 if quick else 20000):
+        for _ in range(600 if quick else 80000):
             inp = [rng.choice([0, 1, 2, 3, 4, 5, 6, -1, 10, None]) for _ in range(rng.randint(0, 7))]
             inp = [x for x in inp if x is not None]      # lazily skipped elements must not be able to raise (eager model)
             e = X
